@@ -1,0 +1,6 @@
+//go:build !verif
+
+package apd
+
+// verifTape is a no-op outside the verification build (build tag "verif").
+func verifTape(string, int64, *Decimal) {}
